@@ -247,6 +247,36 @@ func blocks(tier string) []block {
 				}
 			}
 		}, false},
+		{"namespaces", "every namespace '/'+s with s = one printable ASCII character other than ',' (the terminator of the namespace field) or two characters over {a ? # & = % [ { \" \\ space 1 ü /} x every type x ack ids {none, 10} x 3 argument lists (none, Binary, string with a quote) / control payloads", func(emit func(*packet)) {
+			var list []string
+			for c := byte(0x21); c <= 0x7e; c++ {
+				if c != ',' {
+					list = append(list, "/"+string(c))
+				}
+			}
+			two := []string{"a", "?", "#", "&", "=", "%", "[", "{", "\"", "\\", " ", "1", "ü", "/"}
+			for _, x := range two {
+				for _, y := range two {
+					list = append(list, "/"+x+y)
+				}
+			}
+			for _, nsp := range list {
+				for _, id := range []string{"", "10"} {
+					for _, t := range evAck {
+						for _, a := range [][]*node{nil, {bBytes}, {lStr}} {
+							name := ""
+							if t == parser.PacketTypeEvent {
+								name = "ev"
+							}
+							emit(pk(t, nsp, id, name, a))
+						}
+					}
+				}
+				emit(pk(parser.PacketTypeConnect, nsp, "", "", nil))
+				emit(pk(parser.PacketTypeDisconnect, nsp, "", "", nil))
+				emit(pk(parser.PacketTypeConnectError, nsp, "", "", nil))
+			}
+		}, false},
 		{"names", "every event name over the hostile alphabet up to the tier's length (plus 11 names with other escapes) x namespaces {/, /a} x ack ids {none, 10} x 4 argument lists (none, number, Binary, string with a quote)", func(emit func(*packet)) {
 			max := 2
 			if thorough {
